@@ -90,7 +90,7 @@ def mutate_echo(rng, hs):
     return k, b"", "ok", "header_count"
 
 
-class C16(Prop):
+class C16(MasterProp):
     id = "C16"
     translators = ["gen_master_tables"]
     proof_targets = ["Master/CommandProofs.vo", "Master/MTaskProofs.vo", "Master/TablesAgree.vo"]
